@@ -188,16 +188,6 @@ fn calls_of(log: &[(usize, String)], tid: usize) -> Vec<String> {
 
 fn one_iteration(w: &'static Workload) {
     ITERATIONS.fetch_add(1, Ordering::Relaxed);
-    // the sequential reference, on objects of its own
-    let reference = build(w);
-    let mut want_obs = Vec::new();
-    for tid in 0..w.threads {
-        let tree = &reference.trees[if reference.trees.len() == 1 { 0 } else { tid % reference.trees.len() }];
-        want_obs.push(body(w, tid, tree, &reference.ctx, &reference.log));
-    }
-    let ref_log = reference.log.lock().unwrap().clone();
-    let want_calls: Vec<Vec<String>> = (0..w.threads).map(|t| calls_of(&ref_log, t)).collect();
-
     // the concurrent run on fresh objects
     let built = build(w);
     let log = built.log.clone();
@@ -212,6 +202,18 @@ fn one_iteration(w: &'static Workload) {
     }
     let got_obs: Vec<String> = handles.into_iter().map(|h| h.join().expect("worker thread panicked")).collect();
     let got_log = log.lock().unwrap().clone();
+    // the sequential reference, on objects of its own — computed *after* the concurrent run, so that the
+    // threads meet every process-wide lazily built state cold (a once-initialisation that publishes too early
+    // is only visible to the first concurrent callers)
+    let reference = build(w);
+    let mut want_obs = Vec::new();
+    for tid in 0..w.threads {
+        let tree = &reference.trees[if reference.trees.len() == 1 { 0 } else { tid % reference.trees.len() }];
+        want_obs.push(body(w, tid, tree, &reference.ctx, &reference.log));
+    }
+    let ref_log = reference.log.lock().unwrap().clone();
+    let want_calls: Vec<Vec<String>> = (0..w.threads).map(|t| calls_of(&ref_log, t)).collect();
+
     for tid in 0..w.threads {
         let got_calls = calls_of(&got_log, tid);
         if got_obs[tid] != want_obs[tid] || got_calls != want_calls[tid] {
